@@ -1,20 +1,33 @@
 import SemVerif.Props.C10Res
 import SemVerif.Props.C11
+import SemVerif.Lemmas.FlowSim
+import SemVerif.Lemmas.FlowAna
+import SemVerif.Props.T2
 /-!
-# Property C05 — the instruction stack preserves the program's control flow (partial)
+# Property C05 — the instruction stack preserves the program's control flow
 
-The agreement of the jump program with the structured source for every outcome sequence
-(`Spec/Flow.lean`, DESIGN §3.4) is decided on the implementation by the correspondence run
-(predicate `P_C05`: both interpreters on every generated function, all outcome strings up to a
-bound); the simulation theorem between the two interpreters is not written.
+Semantics (`Spec/Flow.lean`, DESIGN §3.4): the structured source (`FnDecl.flow`: effect events
+numbered in evaluation order, `if`/`else`, `loop`, `break`, `continue`, `return`) is run by
+`runList`, the stack by `runJump`, both driven by a sequence of condition outcomes; `agree` says
+that they produce the same events in the same order and end the same way (returned / out of
+outcomes), with prefix-comparable traces when a step budget runs out on one side.
 
-What *is* proved here, for every accepted program and every function that does not match the
-recorded finding F3 — `C05_jump_program_wellformed`: the emitted stack is a well-formed jump program:
-for every outcome sequence, every fuel and every start position inside the stack, execution never
-jumps to a label that is not set (`badLabel`) and never runs past the last instruction (`fellOff`).
-These are the first two clauses of `agree`.  From `C10_resolved_function` (every target is set,
-mutual structural induction over the control constructs) and `C11_function` (the last instruction
-of an accepted function is a function return).
+`C05_partial` (family T4): for every accepted program and every function that matches neither
+recorded finding F2 (an `if` that is not the last statement of an if/else body) nor F3 (a loop with a
+loop-level return and a break), `agree` holds **for every outcome sequence and every step budget**
+— `flowCheck` finds no disagreement for any bound.  `C05`: on such programs the output predicate
+reports nothing.  Three parts:
+* `Lemmas/FlowSim.lean` (`sim`, `lay_agree`): code laid out according to the syntactic relation
+  `Lay` (`Lemmas/FlowLay.lean`), with pairwise distinct set labels, simulates the structured run with
+  exact step counts — by induction on the fuel of the structured run and, inside, on the layout
+  derivation; fuel monotonicity of the jump program turns that into `agree` for all fuel pairs;
+* `Lemmas/FlowAna.lean` (`T4_function`): the analyzer emits laid-out code — mutual structural
+  induction over if / else / else-if / loop in continuation-passing style, on top of the T2
+  relation (which supplies the success of every evaluation and the number of call events);
+* `wf_function`: no jump to an unset label, never past the last instruction
+  (`C10_resolved_function`, `C11_function`).
+For functions that match F2 or F3 the property is false in general (the findings); there the check
+applies the per-instance matchers to the implementation's stack and no theorem is claimed.
 -/
 namespace SemVerif
 
@@ -170,5 +183,150 @@ theorem C05_jump_program_wellformed (p : Program) (hacc : (run p).accepted = tru
       cases hi : i.isFnReturn with
       | true => rfl
       | false => simp [hi] at h1
+
+/-! ### Agreement with the structured source -/
+
+/-- one function analysed without error, outside F3: its stack is a well-formed jump program -/
+theorem wf_function (g : Globals) (f : FnDecl) (he : (functionBody g f).errors = []) (hf3 : f.hasF3 = false) :
+    (∀ l ∈ jumpTargets (functionBody g f).root.context, l ∈ setLabels (functionBody g f).root.context) ∧
+    (∃ i, (functionBody g f).root.context.getLast? = some i ∧ i.isFnReturn = true) := by
+  constructor
+  · intro l hl
+    rcases Classical.em (l ∈ setLabels (functionBody g f).root.context) with h | h
+    · exact h
+    · exfalso
+      have hu : l ∈ unresolvedTargets (functionBody g f).root.context := by
+        unfold unresolvedTargets
+        rw [List.mem_eraseDups, List.mem_filter]
+        exact ⟨hl, by simpa using h⟩
+      have := (C10_resolved_function g f l hu).2
+      rw [hf3] at this; cases this
+  · have h11 := C11_function g f 0 he
+    unfold P_C11_block at h11
+    dsimp only at h11
+    rw [List.append_eq_nil_iff] at h11
+    have h1 := (List.append_eq_nil_iff.mp (List.append_eq_nil_iff.mp h11.1).1).1
+    cases hl : (functionBody g f).root.context.getLast? with
+    | none => rw [hl] at h1; simp at h1
+    | some i =>
+      rw [hl] at h1
+      refine ⟨i, rfl, ?_⟩
+      cases hi : i.isFnReturn with
+      | true => rfl
+      | false => simp [hi] at h1
+
+/-- **T4** for one function: analysed without error, outside the findings F2 and F3 — the jump
+program and the structured source agree for every outcome sequence and every fuel -/
+theorem C05_function {g : Globals} {rg : RGlobals} (hg : GlobRel g rg) (hn : GNames g) (f : FnDecl)
+    (hok : BodyStmt.anaOKL f.body = true) (hf2 : f.hasF2 = false) (hf3 : f.hasF3 = false)
+    (he : (functionBody g f).errors = []) (outcomes : List Bool) (fuel : Nat) :
+    agree f.flow (functionBody g f).root.context outcomes fuel = none := by
+  obtain ⟨hl, hend⟩ := T4_function hg hn f hok hf2 hf3 he
+  obtain ⟨hres, hlast⟩ := wf_function g f he hf3
+  have hpos : 0 < (functionBody g f).root.context.length := by
+    obtain ⟨i, hi, _⟩ := hlast
+    cases hc : (functionBody g f).root.context with
+    | nil => rw [hc] at hi; simp at hi
+    | cons _ _ => simp
+  exact lay_agree _ _ hl (C10_nodup_function g f) hend
+    (fun fuel os => runJump_wellformed _ hres hlast fuel 0 os [] hpos) outcomes fuel
+
+theorem flowCheckOn_none (flow : List Flow) (stack : List Instr) (k fuel : Nat)
+    (h : ∀ o, agree flow stack o fuel = none) : flowCheckOn flow stack k fuel = none := by
+  unfold flowCheckOn
+  rw [List.findSome?_eq_none_iff]
+  intro o _
+  rw [h o]; rfl
+
+/-- **C05 (outside the findings F2 and F3)** — for every accepted program and every function that
+matches neither finding, the emitted stack, run as a jump program, does what the structured source
+does: for every sequence of condition outcomes and every step budget, the same effects in the same
+order and the same kind of end (`agree`), hence `flowCheck` finds no disagreement for any bound -/
+theorem C05_partial (p : Program) (hacc : (run p).accepted = true) :
+    ∀ x ∈ p.fnDecls.zip (run p).roots, x.1.hasF2 = false → x.1.hasF3 = false →
+      ∀ (k fuel : Nat), flowCheck x.1 x.2.context k fuel = none := by
+  rintro ⟨f, b⟩ hfb hf2 hf3 k fuel
+  dsimp only at hf2 hf3 ⊢
+  have hnp : (run p).panic = none ∧ (run p).errors = [] := by
+    unfold Result.accepted at hacc
+    simpa [Option.isNone_iff_eq_none, List.isEmpty_iff] using hacc
+  have hrel := rel_run p
+  have hg := globRel_of_rel hrel
+  have hn := gnames_of_rel hrel
+  have hok := anaOK_of_no_panic p hnp.1
+  have hr : (run p).roots = p.fnDecls.map fun f => (functionBody (pass2 p (pass1 p GState.init)).globals f).root := by
+    unfold run; simp [List.map_map, Function.comp_def, fns_eq_fnDecls p]
+  rw [hr, List.zip_map_right] at hfb
+  simp only [List.mem_map] at hfb
+  obtain ⟨⟨f1, f2⟩, hz, he⟩ := hfb
+  have hff : f1 = f2 := by
+    have : ∀ (l : List FnDecl) (x : FnDecl × FnDecl), x ∈ l.zip l → x.1 = x.2 := by
+      intro l; induction l with
+      | nil => intro x hx; simp at hx
+      | cons a as ih =>
+        intro x hx
+        simp only [List.zip_cons_cons, List.mem_cons] at hx
+        rcases hx with rfl | hx
+        · rfl
+        · exact ih x hx
+    exact this _ _ hz
+  simp only [Prod.map, id, Prod.mk.injEq] at he
+  obtain ⟨rfl, rfl⟩ := he
+  subst hff
+  have hmem : f1 ∈ p.fnDecls := (List.of_mem_zip hz).1
+  have hfe : (functionBody (pass2 p (pass1 p GState.init)).globals f1).errors = [] := by
+    have he := hnp.2
+    unfold run at he
+    dsimp only at he
+    rw [List.append_eq_nil_iff] at he
+    have := he.2
+    rw [List.flatten_eq_nil_iff] at this
+    apply this
+    rw [List.mem_map]
+    refine ⟨functionBody (pass2 p (pass1 p GState.init)).globals f1, ?_, rfl⟩
+    rw [List.mem_map]
+    exact ⟨f1, by rw [fns_eq_fnDecls]; exact hmem, rfl⟩
+  unfold AnaOKB at hok
+  rw [List.all_eq_true] at hok
+  unfold flowCheck
+  exact flowCheckOn_none _ _ _ _ (fun o => C05_function hg hn f1 (hok f1 hmem) hf2 hf3 hfe o fuel)
+
+/-- a program none of whose functions matches F2 or F3: the output predicate reports nothing -/
+theorem C05 (p : Program) (h23 : ∀ f ∈ p.fnDecls, f.hasF2 = false ∧ f.hasF3 = false) : P_C05 p (run p) = [] := by
+  unfold P_C05
+  split
+  · rfl
+  · rename_i hacc
+    have ha : (run p).accepted = true := by
+      cases hx : acceptedWF p (run p) with
+      | true => unfold acceptedWF at hx; simp only [Bool.and_eq_true] at hx; exact hx.1
+      | false => rw [hx] at hacc; simp at hacc
+    have hall := C05_partial p ha
+    rw [List.eq_nil_iff_forall_not_mem]
+    intro t ht
+    rw [List.mem_eraseDups, List.mem_flatMap] at ht
+    obtain ⟨⟨⟨f, b⟩, i⟩, hx, ht⟩ := ht
+    have hfb := List.fst_mem_of_mem_zipIdx hx
+    have h2 := h23 f (List.of_mem_zip hfb).1
+    dsimp only at ht
+    rw [hall (f, b) hfb h2.1 h2.2] at ht
+    cases ht
+
+/-- non-vacuity: a function with a loop, a break in a nested if, an if / else and a call is accepted,
+matches neither finding, and its flow is not trivial -/
+def exampleFlow : Program :=
+  [.fn ⟨['g'], [(['a'], .prim .u8)], .prim .u8, [.ret (.mk (.var ['a']) none)]⟩,
+   .fn ⟨['m'], [(['x'], .prim .u8)], .prim .u8,
+      [.letB ⟨['y'], true, none, .mk (.lit (.u8 0)) none⟩,
+       .loop [.ifS (.mk (.single (.mk (.lit (.bool true)) none)) (.loopb [.brk]) none none),
+              .bind ⟨['y'], .mk (.call ['g'] [.mk (.var ['y']) none]) none⟩],
+       .ifS (.mk (.single (.mk (.lit (.bool false)) none))
+          (.ifb [.bind ⟨['y'], .mk (.lit (.u8 1)) none⟩])
+          (some (.ifb [.bind ⟨['y'], .mk (.lit (.u8 2)) none⟩])) none),
+       .ret (.mk (.var ['y']) none)]⟩]
+
+example : (run exampleFlow).accepted = true ∧ (exampleFlow.fnDecls.map fun f => (f.hasF2, f.hasF3, f.flow.length)) =
+    [(false, false, 1), (false, false, 4)] := by
+  constructor <;> decide +kernel
 
 end SemVerif
